@@ -259,6 +259,7 @@ func (e *Exec) builtin(st *State, b *ssa.Builtin, c *ssa.CallCommon, args []Val,
 		if md == nil {
 			return nil
 		}
+		e.noteSharedWrite(st, mv.Obj, where)
 		nd := &MapData{Typ: md.Typ}
 		for i, k := range md.Keys {
 			eq := e.keyEq(k, args[1])
